@@ -7,6 +7,12 @@ HERE = os.path.dirname(os.path.dirname(os.path.abspath(__file__)))
 KNOWN = os.path.join(HERE, 'known_findings.json')
 
 
+def out_dir():
+    """Evidence and replay files go under /verif unless VERIF_OUT redirects them (used by the mutant
+    self-test, whose runs against scratch copies must not overwrite the real evidence)."""
+    return os.environ.get('VERIF_OUT') or HERE
+
+
 def load_known(prop):
     try:
         with open(KNOWN) as f:
@@ -17,7 +23,7 @@ def load_known(prop):
 
 
 def write_evidence(prop, tier, seed, coverage, assumptions, wall_s, violations, level='exploration'):
-    d = os.path.join(HERE, 'evidence')
+    d = os.path.join(out_dir(), 'evidence')
     os.makedirs(d, exist_ok=True)
     ev = {'property_id': prop, 'tier': tier, 'seed': int(seed), 'level': level, 'coverage': coverage,
           'assumptions': assumptions, 'wall_s': round(wall_s, 2), 'violations': int(violations)}
@@ -28,7 +34,7 @@ def write_evidence(prop, tier, seed, coverage, assumptions, wall_s, violations, 
 
 
 def write_replay(prop, name, data):
-    d = os.path.join(HERE, 'replays')
+    d = os.path.join(out_dir(), 'replays')
     os.makedirs(d, exist_ok=True)
     p = os.path.join(d, '%s-%s.json' % (prop, name))
     with open(p, 'w') as f:
